@@ -332,6 +332,15 @@ void orc_run_end() {
                  live.size(), bytes, live[0].second.size, (unsigned long)live[0].second.gseq);
         }
     }
+    if (on("C04") || on("C02") || on("C09")) {
+        oracle_eval("C04.regex-conservation");
+        if (R->regex_live != 0) {
+            char sig[64];
+            snprintf(sig, sizeof sig, "%s:compiled-regex-%s", W->property.c_str(), R->regex_live > 0 ? "leaked" : "freed-twice");
+            VIOL(W->property.c_str(), sig, "%ld compiled regular expression(s) of subscriptions %s when everything was torn down", R->regex_live > 0 ? R->regex_live : -R->regex_live,
+                 R->regex_live > 0 ? "were never released (regcomp without regfree)" : "were released more often than compiled");
+        }
+    }
     if (on("C07")) orc_c07_run_end();
     if (on("C20")) orc_c20_run_end();
     if (on("C16")) orc_c16_run_end();
